@@ -66,7 +66,7 @@ import (
 
 const (
 	c38WatchdogSeconds = 20
-	c38RandPerCase     = 30
+	c38RandPerCase     = 24
 	c38MinimizeBudget  = 60
 )
 
@@ -173,19 +173,27 @@ func c38Merge(r *core.Run, a *c38Agg) {
 type c38SysCase struct {
 	Route   int
 	Variant int
+	Shard   int // this case executes the mutants whose index % Shards == Shard
+	Shards  int
 }
 
 func c38SysPlan(routes []*c38Route) []c38SysCase {
 	var out []c38SysCase
 	for i, rt := range routes {
 		for v := 0; v < rt.Variants; v++ {
-			out = append(out, c38SysCase{i, v})
+			n := rt.Shards
+			if n < 1 {
+				n = 1
+			}
+			for sh := 0; sh < n; sh++ {
+				out = append(out, c38SysCase{i, v, sh, n})
+			}
 		}
 	}
 	return out
 }
 
-func c38RandCases(r *core.Run) int { return r.N(200, 19_000) }
+func c38RandCases(r *core.Run) int { return r.N(150, 19_000) }
 
 func c38Rng(seed int64, loop string, idx int) *rand.Rand {
 	h := sha256.New()
@@ -216,7 +224,7 @@ func runC38(r *core.Run) {
 	r.Floor("routes", int64(len(routes)))
 	r.Floor("mutation_classes", 30)
 	r.Floor("requests", int64(r.N(15_000, 400_000)))
-	r.Floor("valid_baseline_ok", int64(len(sys)*3/4))
+	r.Floor("valid_baseline_ok", int64(len(sys)*2/3))
 	r.Extra("routes_total", len(routes))
 	r.Extra("sys_cases", len(sys))
 	r.Extra("rand_cases", nRand)
@@ -281,7 +289,7 @@ func runC38(r *core.Run) {
 				if d := time.Since(t0); d > 15*time.Second {
 					name := fmt.Sprintf("%s[%d,%d)", b.loop, b.from, b.to)
 					if b.loop == "sys" {
-						name += " " + routes[sys[b.from].Route].Name + fmt.Sprintf(" v%d", sys[b.from].Variant)
+						name += " " + routes[sys[b.from].Route].Name + fmt.Sprintf(" v%d shard %d/%d", sys[b.from].Variant, sys[b.from].Shard, sys[b.from].Shards)
 					}
 					r.Seen("slow_batches", fmt.Sprintf("%s %.0fs", name, d.Seconds()))
 				}
@@ -443,7 +451,7 @@ func c38Spawn(exe string, r *core.Run, scratch, loop string, from, to int, out, 
 	cmd := exec.CommandContext(ctx, exe, "--tier", r.Tier, "--seed", strconv.FormatInt(r.Seed, 10), "--verif", scratch, "C38")
 	cmd.Env = append(os.Environ(),
 		fmt.Sprintf("C38_CHILD=%s:%d:%d:%d:%d", loop, from, to, onlyReq, startSeq),
-		"C38_OUT="+out, "C38_INFLIGHT="+inflight, "GOTRACEBACK=all", "GOMAXPROCS=2")
+		"C38_OUT="+out, "C38_INFLIGHT="+inflight, "GOTRACEBACK=all", "GOMAXPROCS=2", "GOGC=400")
 	var eb c38TailBuf
 	cmd.Stdout = io.Discard
 	cmd.Stderr = &eb
@@ -1509,8 +1517,20 @@ func c38RunCase(seed int64, loop string, idx int, routes []*c38Route, sys []c38S
 			return agg
 		}
 		rt := routes[sys[idx].Route]
-		v := sys[idx].Variant
-		run(rt, v, func(valid c38Req) []c38Mut { return c38SysMutants(rt, v, valid, x.st) })
+		sc := sys[idx]
+		run(rt, sc.Variant, func(valid c38Req) []c38Mut {
+			all := c38SysMutants(rt, sc.Variant, valid, x.st)
+			if sc.Shards <= 1 {
+				return all
+			}
+			var mine []c38Mut
+			for i, m := range all {
+				if i%sc.Shards == sc.Shard {
+					mine = append(mine, m)
+				}
+			}
+			return mine
+		})
 	default:
 		for k := 0; k < 3 && !x.aborted; k++ {
 			rt := routes[rng.Intn(len(routes))]
